@@ -199,3 +199,18 @@ package sonic
 //@   ensures [disarmed] old(c.closed) == 0 ==> !pcArmedR(c) && !pcArmedW(c) && c.closed == 1
 //@   ensures [accounting] old(c.closed) == 0 ==> c.ioc.poller.pending == old(c.ioc.poller.pending) - (old(pcArmedR(c)) ? 1 : 0) - (old(pcArmedW(c)) ? 1 : 0)
 //@   ensures [C13 released] old(c.closed) == 0 ==> FDOPEN[c.slot.Fd] == 0
+
+// --- Socket (used by the multicast peer and the IPv4 option wrappers, C12) ---
+//@ func (*Socket).RawFd
+//@   prop C12
+//@   ensures [descriptor] result == s.fd
+//@   modifies nothing
+
+//@ func (*Socket).Close
+//@   prop C13
+//@   // the descriptor is closed once: afterwards the socket no longer names it, so a second
+//@   // Close cannot close a number the kernel has handed to someone else
+//@   assert any call syscall.Close: [first-close-only] old(s.fd) >= 0 && arg0 == old(s.fd)
+//@   ensures [released] old(s.fd) >= 0 ==> FDOPEN[old(s.fd)] == 0 && s.fd < 0
+//@   ensures [already-closed] old(s.fd) < 0 ==> s.fd == old(s.fd) && (forall k :: FDOPEN[k] == old(FDOPEN[k]))
+//@   ensures [nothing-else] forall k :: k != old(s.fd) ==> FDOPEN[k] == old(FDOPEN[k])
